@@ -332,3 +332,25 @@ prop("C03",
      assumptions=["a master only propagates commands that succeeded (streams are type-consistent)",
                   "a resumed stream starts in a database that passes the db filter (checkpoints are only written there)",
                   "with resume on, SELECT does not occur inside a source MULTI block"])
+
+prop("C04",
+     title="Checkpoints are atomic with the data, so resume loses and repeats nothing",
+     timing=True,
+     quick=[{"re": "^TestC04$", "checks": 12, "shards": 4, "timeout": 600}],
+     thorough=[{"re": "^TestC04$", "checks": 1200, "shards": 12, "timeout": 1700}],
+     rule=INCR_RULE + "Here resume is always on (target.db -1), start offsets 0 / 1000 / 2^33, user keys never carry the checkpoint prefix. For each stream: (a) the "
+          "uninterrupted run must satisfy the C03 oracle; the exact byte stream the target received on the sender's connection is parsed into commands and "
+          "EVERY prefix (cut between any two commands, inside or outside MULTI) is replayed into a fresh model with MULTI/EXEC semantics (a cut connection "
+          "discards a queued transaction); at every cut: data applied == reference history restricted to source commands ending at or before the stored offset "
+          "(no more, no less), the offset is a source position right after a command, run id + version present in the database holding the newest offset, "
+          "checkpoint in the database the group's commands ran in. (b) for cuts inside a transaction, right after a SELECT, and 0-4 generated ones (<= 7 per "
+          "stream, run concurrently): the cut state is loaded into a model target, the real checkpoint.LoadCheckpoint must return exactly what the sender "
+          "stored (sender/loader agreement), a second syncer is started from (run id, offset, db) on the source suffix after offset, and every database must "
+          "end with exactly the command sequence of the uninterrupted run (nothing lost, nothing twice, nothing in another db). Non-trivial: >=2 dbs, a source "
+          "MULTI block, >=3 checkpointed groups. Distinct = hash of (configuration, stream, fragmentation, cuts). The evidence counts cut positions and restarts.",
+     technique="property-based testing (rapid) + exhaustive per-run crash-point enumeration (every prefix of the recorded target command stream) against a reference model, and model-based restart comparison",
+     level_text="Generated histories; for each, all cut positions of the byte stream the target actually received are enumerated and checked against the reference, and a sample of them is restarted through the real loader and syncer. Batching decisions of the sender are sampled via thresholds and arrival timing.",
+     level_note="Trusted: harness/mredis (MULTI/EXEC atomicity, Exec replay), the reference walker. A process crash inside the tool equals a connection cut from the target's point of view (the tool keeps no durable state). DbSyncer.sourceOffset is constant here (no ACK goroutine): offset bookkeeping under ACK ticks is C08's.",
+     assumptions=["source data never uses the tool's checkpoint key name",
+                  "SELECT does not occur inside a source MULTI block",
+                  "a cut before the first checkpoint leads to a full sync (outside this property)"])
